@@ -14,5 +14,6 @@ let table : (string * (Model.z list list -> Model.z list list)) list = [
   "routerspec", Model.router_spec_run;
   "locale", Model.locale_run;
   "path", Model.path_run;
+  "file", Model.file_run;
   "localespec", Model.locale_spec_run;
 ]
